@@ -11,7 +11,8 @@ PY = "/venv/bin/python"
 CHECKS = {
     "C13": (
         "model-based PBT: Hypothesis-generated GroupedList operation sequences stepped in lock-step with a "
-        "reference model + bounded exhaustive enumeration of all operation sequences on a 5-value universe",
+        "reference model + bounded exhaustive enumeration of all operation sequences on a 5-value universe; thorough tier "
+        "adds coverage-guided fuzzing (atheris/libFuzzer) of byte-decoded operation sequences against the same oracle",
         "Random search over operation histories (<=25 ops, 12-value universe incl. falsy leaders) against a "
         "40-line reference model with structural invariants after every step, plus an exhaustive sweep of "
         "every valid operation from every state reachable within depth 4 (quick) / 5 (thorough) on a small "
@@ -82,7 +83,8 @@ CHECKS = {
     ),
     "C06": (
         "round-trip + differential PBT: json.dumps/loads/load_* of fitted objects, original vs rebuilt object on "
-        "training, float64-upcast and boundary-probe frames; re-serialisation compared after normalisation",
+        "training, float64-upcast and boundary-probe frames; re-serialisation compared after normalisation; thorough tier "
+        "adds coverage-guided fuzzing (atheris) of the values_orders (de)serialisation core with a round-trip oracle",
         "Every class over int64/float64/float32/huge/tiny/non-representable values and numeric categories; the "
         "rebuilt object must behave identically (transform outputs or exception type, summary) and re-serialise to "
         "the same JSON. Exploration over bounded sizes.",
@@ -238,7 +240,15 @@ def main() -> int:
                 "serves_properties": [c["property_id"] for c in checks],
                 "kind_free_text": "Hypothesis 6.168 property-based testing, 16 seeded shards, JSON cases, corpus replay, "
                 "known-findings matcher; bounded exhaustive enumeration where the domain is finite (C13)",
-            }
+            },
+            {
+                "name": "atheris-fuzz-targets",
+                "path": "pbt/fuzz/fuzz_targets.py",
+                "serves_properties": ["C13", "C06"],
+                "kind_free_text": "atheris 3.1 / libFuzzer coverage-guided fuzzing, bytes decoded into structured cases by "
+                "FuzzedDataProvider, semantic oracle inside the target; run by the thorough tier of C13 and C06 "
+                "(pbt/fuzz/driver.py, 4 jobs, installed offline into /verif/.deps on first use)",
+            },
         ],
         "checks": checks,
         "notes": "All checks: exit 0 = held on everything explored, 1 = VIOLATION line(s) with replay file, 2 = harness "
